@@ -3,6 +3,7 @@ import LadimModel.IBM.Sedimentation
 import LadimModel.IBM.Bio
 import LadimModel.IBM.Memory
 import LadimModel.IBM.Grain
+import LadimModel.IBM.Develop
 namespace Driver
 open Ladim
 
@@ -134,10 +135,26 @@ def hLadis : Handler := do
     | _ => if z < zs then k0 else k1
   pure (outF (Sed.ladis K (fun x => v0 + v1 * x) dt xi x0))
 
+/-- `dev.sandeel bottomTemp temp hatchRate dt stage active` -/
+def hDevSandeel : Handler := do
+  let bt ← getF; let temp ← getF; let hr ← getF; let dt ← getF; let stage ← getF; let active ← getB
+  let p := Dev.sandeelDevelop bt temp hr dt ⟨stage, active⟩
+  pure s!"{outF p.stage} {outB p.active}"
+
+def hDevHatch : Handler := do
+  let r ← getF; let t ← getF
+  pure (outF (Dev.hatchTime r t))
+
+def hDevShrimpLen : Handler := do
+  let s ← getF
+  match Dev.shrimpLength s with
+  | some l => pure (outF l)
+  | none => throw "empty table"
+
 def ibmHandlers : List (String × Handler) :=
   [("sed.update", hSedUpdate), ("mine.update", hMineUpdate), ("sed.tau", hSedTau),
    ("egg.update", hEgg), ("lice.update", hLice), ("larva.update", hLarva),
    ("sandeel.z", hSandeelZ), ("eel.z", hEelZ), ("shrimp.vert", hShrimpVert),
-   ("shrimp.growth", hShrimpGrowth), ("vps.z", hVpsZ), ("vps.update", hVpsUpdate), ("mem.stuck", hMemStuck), ("grain.cell", hGrainCell), ("grain.taucrit", hGrainTaucrit), ("sed.ladis", hLadis)]
+   ("shrimp.growth", hShrimpGrowth), ("vps.z", hVpsZ), ("vps.update", hVpsUpdate), ("mem.stuck", hMemStuck), ("grain.cell", hGrainCell), ("grain.taucrit", hGrainTaucrit), ("sed.ladis", hLadis), ("dev.sandeel", hDevSandeel), ("dev.hatchtime", hDevHatch), ("dev.shrimplen", hDevShrimpLen)]
 
 end Driver
